@@ -343,13 +343,13 @@ Proof.
   rewrite trim_plain by reflexivity.
   change (47 =? 91) with false. change (47 =? 47) with true. cbv iota.
   change (47 :: t ++ rest) with ((47 :: t) ++ rest). rewrite <- E.
-  rewrite parse_name_print; [reflexivity|exact Hwf|apply follow_tok_end; exact Hfo].
+  cbv zeta. rewrite parse_name_print; [reflexivity|exact Hwf|apply follow_tok_end; exact Hfo].
 Qed.
 
 Lemma rt_leaf_str : forall s, rt_stmt (OStr s).
 Proof.
   intros s Hwf f relaxed maxd level rest Hd Hfo Hfu. destruct (fuel_S _ _ Hfu) as [f' ->].
-  cbn [print_S depth wf norm residue] in *. rewrite <- app_assoc. cbn [app]. rewrite parse_obj_eq.
+  cbn [print_S depth wf norm residue] in *. cbn [app]. rewrite <- app_assoc. cbn [app]. rewrite parse_obj_eq.
   assert ((eff_depth maxd <? level)%Z = false) as -> by lia.
   rewrite trim_plain by reflexivity.
   change (40 =? 91) with false. change (40 =? 47) with false. change (40 =? 60) with false.
@@ -360,7 +360,7 @@ Qed.
 Lemma rt_leaf_hex : forall s, rt_stmt (OHex s).
 Proof.
   intros s Hwf f relaxed maxd level rest Hd Hfo Hfu. destruct (fuel_S _ _ Hfu) as [f' ->].
-  cbn [print_S depth wf norm residue] in *. rewrite <- app_assoc. cbn [app]. rewrite parse_obj_eq.
+  cbn [print_S depth wf norm residue] in *. cbn [app]. rewrite <- app_assoc. cbn [app]. rewrite parse_obj_eq.
   assert ((eff_depth maxd <? level)%Z = false) as -> by lia.
   rewrite trim_plain by reflexivity.
   change (60 =? 91) with false. change (60 =? 47) with false. change (60 =? 60) with true. cbv iota.
@@ -370,7 +370,8 @@ Proof.
     cbn [forallb] in Hwf. apply andb_true_iff in Hwf. destruct Hwf as [Hc _].
     destruct (is_hex_range c Hc) as (Hr & _ & _). unfold is_hex, hex_upper in Hc.
     destruct ((48 <=? c) && (c <=? 57)) eqn:E1; [lia|].
-    destruct ((65 <=? c) && (c <=? 70)) eqn:E2; [lia|]. lia. }
+    destruct ((65 <=? c) && (c <=? 70)) eqn:E2; [lia|].
+    destruct ((97 <=? c) && (c <=? 102)) eqn:E3; [lia|discriminate]. }
   destruct Hd2 as (d & t2 & E & Hne). rewrite E.
   assert (d =? 60 = false) as -> by lia. rewrite <- E.
   apply parse_hexlit_print. exact Hwf.
@@ -390,7 +391,7 @@ Lemma items_S_body : forall l, items_S true l = items_body l.
 Proof.
   assert (H : forall l, items_S false l = sepnext l ++ items_body l).
   { induction l as [|x t IH]; [reflexivity|].
-    cbn [items_S items_body sepnext]. rewrite IH. rewrite <- !app_assoc. reflexivity. }
+    cbn [items_S items_body sepnext]. rewrite IH. rewrite <- ?app_assoc. reflexivity. }
   intros l. destruct l as [|x t]; [reflexivity|].
   cbn [items_S items_body]. rewrite H. reflexivity.
 Qed.
@@ -415,10 +416,6 @@ Proof.
     + cbn [app]. destruct (print_first y) as (c & t & E & _ & Hdel & _). rewrite E. cbn [app].
       apply follow_delim. apply Hdel. exact Es.
 Qed.
-
-Lemma trim_res_sep : forall x t rest, exists c u,
-  (sepnext t ++ items_body t) ++ rest = c :: u \/ True.
-Proof. intros. exists 0, []. right. exact I. Qed.
 
 (* white space left over by the element, then the separator, then a plain byte *)
 Lemma trim_blanks : forall c t, plain c = true ->
@@ -453,21 +450,22 @@ Proof.
     destruct (print_first x) as (c & u & E & Hfc & _ & _).
     assert (Hc93 : c =? 93 = false) by (unfold firstc in Hfc; lia).
     rewrite E at 1. cbn [app]. rewrite Hc93.
-    change (c :: u ++ sepnext t ++ items_body t ++ rest) with ((c :: u) ++ sepnext t ++ items_body t ++ rest).
-    rewrite <- E.
     assert (Hlen : length (print_S x ++ sepnext t ++ items_body t ++ rest) =
                    (length (print_S x) + length (sepnext t) + length (items_body t ++ rest))%nat).
     { rewrite !app_length. lia. }
     assert (Hpl : (1 <= length (print_S x))%nat) by (rewrite E; cbn [length]; lia).
-    rewrite <- !app_assoc in Hfu. cbn [items_body] in Hfu. rewrite <- !app_assoc in Hfu.
+    cbn [items_body] in Hfu. rewrite <- !app_assoc in Hfu.
     rewrite Hx; [|exact Hwx|apply Hdep; left; reflexivity|apply follow_items; exact Hwt|unfold fuel_ok; lia].
     (* what is left: residue, separator, the other items *)
     destruct (items_body_first t rest) as (c2 & u2 & E2 & Hp2).
     assert (Htrim : exists sp, residue x ++ sepnext t ++ items_body t ++ rest = sp ++ c2 :: u2
               /\ (sp = [] \/ sp = [32] \/ sp = [32; 32])).
-    { rewrite E2. unfold residue, sepnext.
-      destruct x as [| | | |s| | | | |]; try (destruct t as [|y t']; [|destruct (arr_sep_S y)]; cbn [app]; eauto).
-      destruct s; destruct t as [|y t']; try destruct (arr_sep_S y); cbn [app]; eauto. }
+    { exists (residue x ++ sepnext t). split; [rewrite E2, <- app_assoc; reflexivity|].
+      assert (Hr : residue x = [] \/ residue x = [32]).
+      { unfold residue. destruct x; auto. destruct s; auto. }
+      assert (Hs : sepnext t = [] \/ sepnext t = [32]).
+      { unfold sepnext. destruct t as [|y t']; auto. destruct (arr_sep_S y); auto. }
+      destruct Hr as [-> | ->], Hs as [-> | ->]; cbn [app]; auto. }
     destruct Htrim as (sp & Esp & Hsp). rewrite Esp.
     destruct (trim_blanks c2 u2 Hp2) as (T0 & T1 & T2).
     assert (Hres : (length (residue x) <= 1)%nat).
@@ -569,31 +567,31 @@ Proof.
     { unfold trim_left_space. rewrite <- !app_assoc. rewrite E.
       destruct (dict_sep_S v); cbn [app]; [apply tls_sp_plain|apply tls_plain]; exact Hpc. }
     rewrite Htls. rewrite E at 1. cbn [app].
-    change (c :: u ++ ents_S t ++ rest) with ((c :: u) ++ ents_S t ++ rest). rewrite <- E.
     assert (Hpl : (1 <= length (print_S v))%nat) by (rewrite E; cbn [length]; lia).
-    cbn [length] in Hfu. rewrite !app_length in Hfu.
+    cbn [ents_S] in Hfu. rewrite !app_length in Hfu. cbn [length] in Hfu. rewrite !app_length in Hfu.
     destruct (ents_first t rest) as (a & b & tl' & E2 & Ha).
     rewrite Hv; [|exact Hwv|apply (Hdep (k, v)); left; reflexivity|rewrite E2; apply follow_delim; exact Ha
                  |unfold fuel_ok; rewrite !app_length; lia].
     rewrite is_null_norm.
     destruct (plain_num2 a Ha) as [Hpa _].
     assert (Hres : exists sp, residue v ++ ents_S t ++ rest = sp ++ a :: b :: tl' /\ (sp = [] \/ sp = [32])).
-    { rewrite E2. unfold residue. destruct v as [| | | |s| | | | |]; try (exists []; split; [reflexivity|auto]).
-      destruct s; [exists [32]|exists []]; split; auto. }
+    { exists (residue v). split; [rewrite E2; reflexivity|].
+      unfold residue. destruct v; auto. destruct s; auto. }
     destruct Hres as (sp & Esp & Hsp). rewrite Esp.
-    assert (Hdis' : forall d1, (forall k0, In k0 (map fst d1) -> In k0 (map fst d0) \/ k0 = k) ->
+    assert (Hdis' : forall d1 : list (bytes * obj), (forall k0, In k0 (map fst d1) -> In k0 (map fst d0) \/ k0 = k) ->
               forall k0, In k0 (map fst d1) -> ~ In k0 (map fst t)).
     { intros d1 Hsub k0 Hin Hin2. destruct (Hsub k0 Hin) as [Hold | ->].
       - apply (Hdis k0 Hold). right. exact Hin2.
       - apply Hknew. exact Hin2. }
-    assert (Hnext : forall d1, (forall k0, In k0 (map fst d1) -> In k0 (map fst d0) \/ k0 = k) ->
+    assert (Hnext : forall d1 : list (bytes * obj), (forall k0, In k0 (map fst d1) -> In k0 (map fst d0) \/ k0 = k) ->
               parse_dict f relaxed maxd level (a :: b :: tl') d1 = POk (ODict (d1 ++ normd t)) rest).
-    { intros d1 Hsub. rewrite <- E2. apply IH; [exact Ht|exact Hwt|exact Hndt| |apply Hdis'; exact Hsub|lia].
+    { intros d1 Hsub. rewrite <- E2. apply IH; [exact Ht|exact Hwt|exact Hndt| |apply Hdis'; exact Hsub|rewrite app_length; lia].
       intros kv Hin. apply Hdep. right. exact Hin. }
     assert (Hfinal : parse_dict f relaxed maxd level (a :: b :: tl')
                        (if is_null v then d0 else dict_insert k (norm v) d0)
                      = POk (ODict (d0 ++ normd ((k, v) :: t))) rest).
-    { unfold normd at 2. cbn [flat_map fst snd]. fold (normd t). destruct (is_null v).
+    { assert (En : normd ((k, v) :: t) = (if is_null v then [] else [(k, norm v)]) ++ normd t) by reflexivity.
+      rewrite En. destruct (is_null v).
       - cbn [app]. apply Hnext. intros k0 Hin. left. exact Hin.
       - rewrite dict_insert_new by (intros Hin; apply (Hdis k Hin); left; reflexivity).
         rewrite Hnext; [cbn [app]; rewrite <- app_assoc; reflexivity|].
